@@ -7,8 +7,9 @@ A pattern is given in tokenised form (`List Seg`): the literal text between `{va
 tokens as recognised by PATH_ARG_RE.  `render` gives back the pattern string; the tie
 "PATH_ARG_RE tokenises `render segs` into `segs`" is checked by T2 on the real code.
 
-The model FOLLOWS THE CODE: literal text is inserted into the regex source *unescaped*, so a
-literal `.` is the regex `any`, and other regex metacharacters make the pattern unsupported here.
+The model FOLLOWS THE CODE: since the `fix:` commit for C19 the literal text between variables is
+passed through `re.escape`, so every literal character is a LITERAL node of the regex.
+(Before that commit a literal `.` was the regex `any`; see known_findings.json, "fixed".)
 -/
 namespace GapicModel.Model.PathHelpers
 open GapicModel.Regex
@@ -44,50 +45,39 @@ def build : List Seg → List (List Char) → List Char
   | .var _ _ :: r, v :: vs => v ++ build r vs
   | .var _ _ :: r, [] => build r []
 
-/-- regex metacharacters (outside a class) -/
-def isMeta (c : Char) : Bool := c ∈ ['.', '^', '$', '*', '+', '?', '{', '}', '[', ']', '\\', '|', '(', ')']
-
-/-- One literal character as the *unescaped regex source* it becomes at HEAD. -/
-def litItem (c : Char) : Option Re :=
-  if c = '.' then some .any else if isMeta c then none else some (.chr c)
-
-def litItems : List Char → Option (List Re)
-  | [] => some []
-  | c :: cs => do let a ← litItem c; let r ← litItems cs; pure (a :: r)
+/-- literal text as regex items: `re.escape` makes every literal character match itself
+    (CPython parses `\\c` and `c` to the same LITERAL node). -/
+def litItems (cs : List Char) : List Re := cs.map .chr
 
 /-- `(?P<name>.+?)` with group number `i`. -/
 def varRe (i : Nat) : Re := .group i (.seq .any (.star .any false))
 
 /-- items of the regex between `^` and `$`; `i` = next group number. -/
-def segItems : Nat → List Seg → Option (List Re)
-  | _, [] => some []
-  | i, .lit cs :: r => do let a ← litItems cs; let b ← segItems i r; pure (a ++ b)
-  | i, .var _ _ :: r => do let b ← segItems (i+1) r; pure (varRe i :: b)
-
+def segItems : Nat → List Seg → List Re
+  | _, [] => []
+  | i, .lit cs :: r => litItems cs ++ segItems i r
+  | i, .var _ _ :: r => varRe i :: segItems (i+1) r
 
 def namesFrom : Nat → List Seg → List (String × Nat)
   | _, [] => []
   | i, .lit _ :: r => namesFrom i r
   | i, .var n _ :: r => (String.ofList n, i) :: namesFrom (i+1) r
 
-/-- `path_regex_str`, as the AST CPython builds from it. The wildcard special case `^*$ ↦ ^.*$`. -/
-def pathRegex (segs : List Seg) : Option Pattern :=
+/-- `path_regex_str`, as the AST CPython builds from it. The wildcard special case `^\\*$ ↦ ^.*$`. -/
+def pathRegex (segs : List Seg) : Pattern :=
   if segs = [.lit ['*']] then
-    some ⟨seqR [.bol, .star .any true, .eol], 0, []⟩
-  else do
-    let items ← segItems 1 segs
-    pure ⟨seqR (.bol :: items ++ [.eol]), (pathArgs segs).length, namesFrom 1 segs⟩
+    ⟨seqR [.bol, .star .any true, .eol], 0, []⟩
+  else
+    ⟨seqR (.bol :: segItems 1 segs ++ [.eol]), (pathArgs segs).length, namesFrom 1 segs⟩
 
 /-- `m.groupdict() if m else {}` — as an association list in group order. -/
 def groupdict (p : Pattern) (caps : List (Nat × List Char)) : List (String × List Char) :=
   p.names.map fun (n, i) => (n, (St.group? caps i).getD [])
 
-def parse (t : ClassTables) (segs : List Seg) (path : List Char) : Option (List (String × List Char)) :=
-  match pathRegex segs with
-  | none => none                                  -- unsupported by the model
-  | some p =>
-    match pyMatch t p.re path with
-    | some r => some (groupdict p r.caps)
-    | none => some []
+def parse (t : ClassTables) (segs : List Seg) (path : List Char) : List (String × List Char) :=
+  let p := pathRegex segs
+  match pyMatch t p.re path with
+  | some r => groupdict p r.caps
+  | none => []
 
 end GapicModel.Model.PathHelpers
